@@ -2,9 +2,10 @@
    ExtrOcamlBasic only; Z / positive / nat / N stay inductive.  No Extract
    Constant of our own. *)
 From Coq Require Import Extraction ExtrOcamlBasic.
-From Verif Require Import Base.GoPrim Model.IoUtil.
+From Verif Require Import Base.GoPrim Model.IoUtil Model.Containers.
 
 Extraction Language OCaml.
 Extraction "model.ml"
   Z.add Z.sub Z.mul Z.div Z.modulo Z.opp Z.eqb Z.ltb Z.leb Z.of_nat Z.to_nat
-  lr_run_replay lr_run_stream tw_run_replay.
+  lr_run_replay lr_run_stream tw_run_replay
+  ring_run ring_new set_run map_range_ok.
